@@ -310,11 +310,100 @@ def judge_setop(ck, cases, results):
                           'detail': 'model and implementation disagree at %s on %s (%s)' % (pos, cases[i]['sources'][0], corr_terms[j])})
 
 
+def serial_cases(ck, n):
+    """serially applied value constraints, each within the one before: (lo..hi), (lo..hi, ...), ((lo..hi), ...), (v), (v, ...)"""
+    rng = ck.rng
+    out = []
+    for k in range(n):
+        lo, hi = sorted([rng.choice(FIN), rng.choice(FIN)])
+        depth = rng.randint(2, 3)
+        cons, terms = [], []
+        for j in range(depth):
+            if j > 0:
+                a, b = sorted([rng.randint(lo, hi), rng.randint(lo, hi)]) if hi - lo < 2 ** 62 else sorted(rng.sample([lo, hi, lo + 1, hi - 1, (lo + hi) // 2], 2))
+                lo, hi = a, b
+            form = rng.choice(['r', 'r', 're', 'rs', 'v', 've'] if lo == hi else ['r', 'r', 'r', 're', 'rs'])
+            if form == 'r':
+                cons.append('(%d..%d)' % (lo, hi)); terms.append('(CRange (Some %s) (Some %s) false false)' % (cz(lo), cz(hi))); e = False
+            elif form == 're':
+                cons.append('(%d..%d, ...)' % (lo, hi)); terms.append('(CRange (Some %s) (Some %s) true false)' % (cz(lo), cz(hi))); e = True
+            elif form == 'rs':
+                cons.append('((%d..%d), ...)' % (lo, hi)); terms.append('(CRange (Some %s) (Some %s) false true)' % (cz(lo), cz(hi))); e = True
+            elif form == 'v':
+                cons.append('(%d)' % lo); terms.append('(CSingle %s false false)' % cz(lo)); e = False
+            else:
+                cons.append('(%d, ...)' % lo); terms.append('(CSingle %s true false)' % cz(lo)); e = True
+        c = ''.join(cons)
+        src = ('Ms%d DEFINITIONS AUTOMATIC TAGS ::= BEGIN\nTt ::= INTEGER %s\nSs ::= SEQUENCE { a INTEGER %s }\nLl ::= SEQUENCE OF INTEGER %s\n'
+               'vv Tt ::= %d\nDd ::= SEQUENCE { d INTEGER %s DEFAULT %d }\nEND\n' % (k, c, c, c, lo, c, lo))
+        out.append({'op': 'compile', 'sources': [src], '_lo': lo, '_hi': hi, '_ext': e, '_terms': terms, '_c': c})
+    return out
+
+
+def judge_serial(ck, cases, results):
+    """assignment path against the model (int_type over the serial list); every position against the meaning: the type holds the
+    effective range, and is fixed-width only if the last constraint -- which decides about extensibility, X.680 50.8 -- has no marker"""
+    corr, cidx, spec, sidx = [], [], [], []
+    for i, (c, r) in enumerate(zip(cases, results)):
+        ck.note_case(c['sources'][0])
+        ck.count('serial')
+        if 'panic' in r or 'crash' in r:
+            ck.violation('impl-violation', c['sources'][0], impl=r, why='compiler crashed')
+            continue
+        if not r.get('ok') or 'items' not in r or r.get('warnings'):
+            ck.violation('impl-violation', c['sources'][0], impl={k: v for k, v in r.items() if k not in ('generated', 'items')},
+                         why='serial value constraints, each within the one before, are rejected or warned about')
+            continue
+        items = r['items']
+        seen = []
+        t = find(items, 'struct', 'Tt')
+        v = find(items, 'const', 'VV') or find(items, 'static', 'VV')
+        if t:
+            seen.append(('assignment', t['fields'][0]['ty'], int_literals(v['expr']) if v else [], True))
+        s_ = find(items, 'struct', 'Ss')
+        if s_:
+            seen.append(('component', s_['fields'][0]['ty'], [], False))
+        l = find(items, 'struct', 'AnonymousLl')
+        if l:
+            seen.append(('element', l['fields'][0]['ty'], [], True))
+        d = find(items, 'struct', 'Dd')
+        f = find(items, 'fn', 'dd_d_default')
+        if d and f:
+            seen.append(('default', d['fields'][0]['ty'], int_literals(' '.join(f['body'])), False))
+            if f['ret'] != d['fields'][0]['ty']:
+                ck.violation('impl-violation', c['sources'][0], why='default fn type %s vs field %s' % (f['ret'], d['fields'][0]['ty']))
+        if len(seen) < 4:
+            ck.violation('impl-violation', c['sources'][0], why='a position is missing from the bindings', seen=[x[0] for x in seen])
+        for pos, tok, lits, assign_path in seen:
+            ty = TOK2TY.get(tok)
+            if ty is None:
+                ck.violation('impl-violation', c['sources'][0], position=pos, why='unexpected integer type token %s' % tok)
+                continue
+            if assign_path:
+                corr.append('(%s, %s)' % (clist(c['_terms']), ty)); cidx.append((i, pos))
+            spec.append('(%s, %s, %s, %s, %s)' % (oz(c['_lo']), oz(c['_hi']), cbool(c['_ext']), ty, clist(lits, cz) if lits else '@nil Z'))
+            sidx.append((i, pos))
+    bad = set()
+    for j in coq_eval_bad('C06', REQ, 'option Z * option Z * bool * int_ty * list Z', 'spec_e2e', spec, label='serial_spec'):
+        i, pos = sidx[j]
+        bad.add(i)
+        ck.violation('impl-violation', cases[i]['sources'][0], position=pos, constraint=cases[i]['_c'], term=spec[j],
+                     why='serial constraints: the integer type does not hold the effective range or a literal, or is fixed-width although the '
+                         'last constraint carries an extension marker')
+    for j in coq_eval_bad('C06', REQ, 'list int_constraint * int_ty', 'corr_assign_serial', corr, label='serial_corr'):
+        i, pos = cidx[j]
+        if i not in bad:
+            ck.broken.append({'kind': 'correspondence', 'item': 'Constraint::integer_type_of (serial constraints, assignment path)',
+                              'detail': 'model and implementation disagree at %s on %s (%s)' % (pos, cases[i]['_c'], corr[j])})
+    ck.coverage['traces_validated_against_impl'] = ck.coverage.get('traces_validated_against_impl', 0) + len(corr)
+
+
 def run(ck):
     ck.coverage['rule'] = ('direct: all 53x53 (lower, upper) pairs of the boundary set x ext through int_type_token (hook) and '
                            'Constraint::integer_constraints (public), all 81 max_restrictive pairs; end-to-end: modules with the '
                            'range on a type assignment, SEQUENCE component, SEQUENCE OF element, CHOICE alternative, constrained '
-                           'reference, value assignment and DEFAULT; a case is distinct by (op, lo, hi, ext)')
+                           'reference, value assignment and DEFAULT; a case is distinct by (op, lo, hi, ext); serial value constraints (2..3, each within the one '
+                           'before, ranges and single values, markers in all three written forms) on assignment, component, element, value and DEFAULT')
     ck.assumptions += ['ladders are re-translated from source (T06, T07); the head of integer_constraints and the option prologue of '
                        'int_type_token are hand-modelled and tied by the correspondence H6',
                        'rustc integer type ranges are as in Spec/IntFits.v']
@@ -340,6 +429,9 @@ def run(ck):
     if sc:
         ck.sample({'asn1': sc[0]['sources'][0]})
     judge_setop(ck, sc, run_harness(sc))
+    ser = serial_cases(ck, 150 if ck.tier == 'quick' else 3000)
+    ck.sample({'asn1': ser[0]['sources'][0]})
+    judge_serial(ck, ser, run_harness(ser))
 
 
 def replay(ck, data):
